@@ -135,8 +135,46 @@ pub fn gen_case(seed: u64, idx: u64) -> Case {
             let d = 1 + rng.below(cap);
             Case { family: "nesting", text: ladder_text(l, d) }
         }
+        9 if rng.chance(1, 2) => Case { family: "type-declarations", text: type_decl_program(&mut rng) },
         _ => Case { family: "corpus", text: src.clone() },
     }
+}
+
+/// well-formed and nearly well-formed type declarations: aliases (plain, parameterised, recursive, nameless default), tuple,
+/// partial and named-partial types with labelled and positional fields, spreads of every kind of alias into every kind of
+/// bracket, unions and intersections of them — followed by one use, so the compiler resolves them
+fn type_decl_program(rng: &mut Rng) -> String {
+    fn atom(rng: &mut Rng, d: usize, names: &[String]) -> String {
+        match rng.below(if d == 0 { 4 } else { 10 }) {
+            0 => "'int".into(), 1 => "'bin".into(), 2 => "[]".into(),
+            3 if !names.is_empty() => format!("'{}", rng.pick(names)),
+            3 => "A".into(),
+            4 | 5 => { let n = rng.below(4); let name = *rng.pick(&["", "", "P", "Q"]); let fs: Vec<String> = (0..n).map(|i| field(rng, d - 1, names, i)).collect(); format!("{}[{}]", name, fs.join(", ")) }
+            6 | 7 => { let n = 1 + rng.below(3); let name = *rng.pick(&["", "", "P"]); let fs: Vec<String> = (0..n).map(|i| field(rng, d - 1, names, i)).collect(); format!("{}({})", name, fs.join(", ")) }
+            8 => format!("({} | {})", atom(rng, d - 1, names), atom(rng, d - 1, names)),
+            _ => format!("({} & {})", atom(rng, d - 1, names), atom(rng, d - 1, names)),
+        }
+    }
+    fn field(rng: &mut Rng, d: usize, names: &[String], i: usize) -> String {
+        match rng.below(6) {
+            0 if !names.is_empty() => format!("...'{}", rng.pick(names)),
+            1 if !names.is_empty() => "...".to_string(),
+            2 | 3 => format!("{}: {}", ["x", "y", "z", "w"][i % 4], atom(rng, d, names)),
+            _ => atom(rng, d, names),
+        }
+    }
+    let mut names: Vec<String> = vec![]; let mut lines = vec![];
+    for k in 0..(1 + rng.below(4)) {
+        let n = format!("t{}", k);
+        let def = if rng.chance(1, 6) { format!("Nil | Cons[{}, ^]", atom(rng, 1, &names)) } else { atom(rng, 2, &names) };
+        // `'a[..., f: T]` spread-update of an earlier alias
+        let def = if !names.is_empty() && rng.chance(1, 5) { format!("'{}[..., {}]", rng.pick(&names), field(rng, 1, &names, 2)) } else { def };
+        lines.push(if rng.chance(1, 6) { format!("'{}<'p> = {}", n, def.replace("'int", "'p")) } else { format!("'{} = {}", n, def) });
+        names.push(n);
+    }
+    let used = rng.pick(&names).clone();
+    lines.push(match rng.below(3) { 0 => format!("f = #'{} {{ $ }}, 1", used), 1 => format!("5 ='{}", used), _ => "1".to_string() });
+    lines.join(if rng.chance(1, 2) { "\n" } else { ", " })
 }
 
 #[derive(Debug)]
@@ -309,4 +347,4 @@ pub fn check(rep: &Report) {
 
 pub const RULE: &str = "inputs derived from the corpus extracted from the current /repo (test-suite sources, spec/README blocks, std, format/parser/lsp test literals): every-position prefixes, single-token deletion / duplication / substitution (substitutes from the language's token set), character-level insert/replace incl. NUL, multi-byte UTF-8, U+2028 and CRLF, numeric extremes in every numeric position (accessor indices, ^N, @N, decimals, fractions, hex), splices of two programs, token soup, nesting ladders of 36 bracketing/repetition constructs in value, pattern and type position up to depth 100; parse then (if accepted) compile, under catch_unwind on an 8 MiB-stack thread in the release profile inside child processes (aborts/stack overflows attributed to the input). Oracle: no panic/abort, parse error position inside the input and consistent (offset <= len, line matches offset, column >= 1), ladders judged by the hang discipline (x4 growth per 4 levels twice and >1 h extrapolated). distinct_nontrivial = distinct non-corpus inputs judged";
 pub const ASSUME: &[&str] = &["slow or stalled non-ladder cases are inconclusive (no structural parameter to scale)", "compile uses the inline (stdlib-only) resolver"];
-pub const SITUATIONS: &[&str] = &["family=prefix", "family=token-delete", "family=token-duplicate", "family=token-substitute", "family=char-insert", "family=numeric-extreme", "family=nesting", "family=splice", "family=token-soup", "parse=ok", "parse=err", "compile=ok", "compile=err", "ladders_finished_to_depth_100"];
+pub const SITUATIONS: &[&str] = &["family=prefix", "family=token-delete", "family=token-duplicate", "family=token-substitute", "family=char-insert", "family=numeric-extreme", "family=nesting", "family=splice", "family=token-soup", "family=type-declarations", "parse=ok", "parse=err", "compile=ok", "compile=err", "ladders_finished_to_depth_100"];
